@@ -33,6 +33,14 @@ fn collect_fixture_keys() -> Vec<(String, Value)> {
     out
 }
 
+fn ref_id(v: &Value) -> String {
+    use serde::Serialize;
+    let mut buf = Vec::new();
+    let mut ser = serde_json::Serializer::with_formatter(&mut buf, olpc_cjson::CanonicalFormatter::new());
+    v.serialize(&mut ser).unwrap();
+    hex::encode(aws_lc_rs::digest::digest(&aws_lc_rs::digest::SHA256, &buf).as_ref())
+}
+
 fn root_text(keys_json: &str, listed: &str) -> String {
     let role = format!(r#"{{"keyids":["{listed}"],"threshold":1}}"#);
     format!(
@@ -120,6 +128,24 @@ pub fn op_keyids(_sc: Value) -> Value {
                 // stability across parse / re-serialise / re-parse
                 let again: Key = serde_json::from_slice(&serde_json::to_vec(&parsed).unwrap()).unwrap();
                 check(&mut cases, format!("{ty} key with an unknown member: identifier stable across parse, re-serialise, re-parse (accepted = stable)"), again.key_id().unwrap() == parsed.key_id().unwrap(), true);
+            }
+            // the same at the `keyval` level, with the reference identifier computed independently of the library: SHA-256 of the OLPC canonical
+            // form of the key object as it stands in the document
+            for level in ["key", "keyval"] {
+                let mut kv = k.clone();
+                {
+                    let obj = if level == "keyval" { kv["keyval"].as_object_mut() } else { kv.as_object_mut() };
+                    match obj {
+                        Some(o) => { o.insert("x-extra".into(), json!("kept")); }
+                        None => continue,
+                    }
+                }
+                let rid = ref_id(&kv);
+                let kvj = serde_json::to_string(&kv).unwrap();
+                check(&mut cases, format!("{kind} table, {ty} key with an unknown member at the {level} level, listed under the SHA-256 of its canonical form"), parses(kind, &format!(r#"{{"{rid}":{kvj}}}"#), &rid), true);
+                if rid != *id {
+                    check(&mut cases, format!("{kind} table, {ty} key with an unknown member at the {level} level, listed under the identifier of the key WITHOUT that member"), parses(kind, &format!(r#"{{"{id}":{kvj}}}"#), id), false);
+                }
             }
             let parsed: Key = serde_json::from_value(k.clone()).unwrap();
             let again: Key = serde_json::from_slice(&serde_json::to_vec(&parsed).unwrap()).unwrap();
